@@ -484,7 +484,8 @@ Definition fire (c : cell) (fl : flags) (s : sys) : sys + setup :=
   match c_event c with
   | VRst | VSerr =>
       if negb (registered (one_call s)) then inr SNoStreamForRst
-      else if get_flag fl F_end_done && eof_arrived c then inr SRstInfeasible
+      else if (get_flag fl F_end_done && eof_arrived c) || get_flag fl F_cancel_done
+      then inr SRstInfeasible   (* the stream is closed on both sides / the client has reset it *)
       else inl (sstep s (LRst 0 (match c_event c with VRst => true | _ => false end)))
   | VGoaway => inl (sstep s (LConn CGoaway))
   | VGarbage => inl (sstep s (LConn CProtoErr))
@@ -605,45 +606,119 @@ Definition predict (tbl : optable) (c : cell) : prediction :=
   | _, _ => no_prediction SError
   end.
 
-(* ---- several operations of one call at once (the PRNG part of the correspondence) ---- *)
+(* ---- one call driven by several tasks at once (the scripted / PRNG part of the correspondence) ---- *)
+(* what happens between the start of the operations and the termination event *)
+Inductive mstep :=
+| MReply                 (* the server sends the response headers (if not yet) and one message *)
+| MCredit                (* the server grants exactly the credit the blocked send_message needs *)
+| MResume                (* the transport resumes writing *)
+| MStart (o : cop).      (* the application starts another operation (e.g. the receiver loops) *)
+
 Record mspec := {
-  m_ops : list cop;            (* started concurrently, each as its own task, before the event *)
+  m_ops : list cop;            (* started concurrently, each as its own task, in this order *)
+  m_mid : list mstep;          (* then, before the event *)
   m_after : list cop;          (* started after the event *)
   m_paused : bool; m_window : bool; m_headers : bool;
   m_event : cevent; m_deadline : bool }.
 
-Definition m_cell (m : mspec) (o : cop) : cell :=
-  {| c_op := o;
-     c_reason := match o with
-                 | KSm => if m_paused m then RPaused else if m_window m then RWindow else RSilent
-                 | KEn | KCa => if m_paused m then RPaused else RSilent
-                 | _ => RSilent
-                 end;
-     c_event := m_event m; c_during := true; c_deadline := m_deadline m; c_status := StNone;
+Definition with_env (m : mspec) (pa wi he : bool) : mspec :=
+  {| m_ops := m_ops m; m_mid := m_mid m; m_after := m_after m; m_paused := pa; m_window := wi;
+     m_headers := he; m_event := m_event m; m_deadline := m_deadline m |}.
+
+(* the state of the connection / of the server's answer as a cell, for `blocks` and `decisions` *)
+Definition env_cell (m : mspec) (msg : bool) : cell :=
+  {| c_op := KSm;
+     c_reason := if m_paused m then RPaused else if m_window m then RWindow else RSilent;
+     c_event := m_event m; c_during := true; c_deadline := m_deadline m;
+     c_status := if msg then StH200Msg else StNone;
      c_variant := if m_headers m then VaAfterHeaders else VaBase |}.
 
-Definition start_all (tbl : optable) (m : mspec) (closing : bool) (ops : list cop) (s : sys) (fl : flags)
-  : option (sys * list nat * bool) :=
-  fold_left (fun (acc : option (sys * list nat * bool)) (o : cop) =>
-               match acc, op_program tbl o with
-               | Some (s, ts, ok), Some prog =>
-                   let c := m_cell m o in
-                   match start_op tbl (cell_cx c false closing) (decisions c) s fl prog with
-                   | Some (s', _, ok') => Some (s', ts ++ [last_task s'], ok && ok')
-                   | None => None
+Definition all_flags : list flag :=
+  [F_send_request_done; F_send_message_done; F_end_done; F_recv_initial_metadata_done;
+   F_recv_trailing_metadata_done; F_cancel_done; F_trailers_only; F_send_initial_metadata_done;
+   F_send_trailing_metadata_done].
+
+Definition flags_or (a b : flags) : flags :=
+  fold_left (fun f g => if get_flag b g then set_flag f g true else f) all_flags a.
+
+Record mst := {
+  q_sys : sys;
+  q_fl0 : flags;                       (* the flags after the set-up *)
+  q_ok : bool;
+  q_started : list (nat * flags);      (* the tasks started, each with the flags its path sets *)
+  q_env : mspec }.
+
+(* the flags as the operations that have COMPLETED leave them *)
+Definition cur_flags (q : mst) : flags :=
+  fold_left (fun f (tf : nat * flags) =>
+               match task_st (q_sys q) (fst tf) with Done RNormal => flags_or f (snd tf) | _ => f end)
+            (q_started q) (q_fl0 q).
+
+Definition q_start (tbl : optable) (closing : bool) (q : mst) (o : cop) : option mst :=
+  match op_program tbl o with
+  | None => None
+  | Some prog =>
+      let c := env_cell (q_env q) false in
+      match start_op tbl (cell_cx c false closing) (decisions c) (q_sys q) (cur_flags q) prog with
+      | Some (s', fl', ok') =>
+          Some {| q_sys := s'; q_fl0 := q_fl0 q; q_ok := q_ok q && ok';
+                  q_started := q_started q ++ [(last_task s', fl')]; q_env := q_env q |}
+      | None => None
+      end
+  end.
+
+(* the state of the connection changed: every suspended task whose primitive no longer suspends is
+   completed and scheduled *)
+Definition wake (c : cell) (s : sys) : sys :=
+  fold_left (fun s t =>
+               match nth_error (tasks (ck (one_call s))) t with
+               | Some tk =>
+                   match st tk, acts tk with
+                   | Blocked, AAwait x :: rest =>
+                       if blocks c x then s
+                       else sstep (sstep s (LK 0 (Complete t))) (LK 0 (Run t (decisions c rest)))
+                   | _, _ => s
                    end
-               | _, _ => None
-               end) ops (Some (s, [], true)).
+               | None => s
+               end) (seq 0 (length (tasks (ck (one_call s))))) s.
+
+Definition q_with (q : mst) (s : sys) (m : mspec) : mst :=
+  {| q_sys := s; q_fl0 := q_fl0 q; q_ok := q_ok q; q_started := q_started q; q_env := m |}.
+
+Definition q_step (tbl : optable) (q : mst) (x : mstep) : option mst :=
+  let m := q_env q in
+  match x with
+  | MStart o => q_start tbl false q o
+  | MReply =>
+      let m' := with_env m (m_paused m) (m_window m) true in
+      Some (q_with q (wake (env_cell m' true) (q_sys q)) m')
+  | MCredit =>
+      Some (q_with q (wake (env_cell (with_env m (m_paused m) false (m_headers m)) false) (q_sys q)) m)
+  | MResume =>
+      let m' := with_env m false (m_window m) (m_headers m) in
+      Some (q_with q (wake (env_cell m' false) (q_sys q)) m')
+  end.
+
+Definition q_fold {A} (f : mst -> A -> option mst) (l : list A) (q : option mst) : option mst :=
+  fold_left (fun acc x => match acc with Some q => f q x | None => None end) l q.
 
 Definition task_outcome (c : cell) (s : sys) (t : nat) : outcome :=
   match task_st s t with Done r => res_outcome c r | _ => OPending end.
 
-Record mprediction := { mp_setup : setup; mp_during : list outcome; mp_after : list outcome;
-                        mp_inpaths : bool }.
+Definition is_blocked_task (s : sys) (t : nat) : bool :=
+  match task_st s t with Blocked => true | _ => false end.
+
+Record mprediction := {
+  mp_setup : setup;
+  mp_blocked : list bool;      (* per task started before the event: suspended when the event came *)
+  mp_during : list outcome;    (* ... its outcome at quiescence after the event *)
+  mp_after : list outcome;
+  mp_inpaths : bool }.
 
 Definition predict_multi (tbl : optable) (m : mspec) : mprediction :=
-  let c0 := m_cell m KSm in
-  let bad su := {| mp_setup := su; mp_during := []; mp_after := []; mp_inpaths := true |} in
+  let c0 := env_cell m false in
+  let bad su := {| mp_setup := su; mp_blocked := []; mp_during := []; mp_after := [];
+                   mp_inpaths := true |} in
   let s0 : sys := [new_call (m_deadline m)] in
   let pre1 :=
     match lookup OpSendRequest tbl with
@@ -667,20 +742,26 @@ Definition predict_multi (tbl : optable) (m : mspec) : mprediction :=
   match pre2 with
   | None => bad SError
   | Some (s1, fl1, ok1) =>
-      match start_all tbl m false (m_ops m) s1 fl1 with
+      let q0 := {| q_sys := s1; q_fl0 := fl1; q_ok := ok1; q_started := []; q_env := m |} in
+      match q_fold (q_step tbl) (m_mid m) (q_fold (q_start tbl false) (m_ops m) (Some q0)) with
       | None => bad SError
-      | Some (s2, ts, ok2) =>
-          match fire c0 fl1 s2 with
+      | Some q1 =>
+          let ts := map fst (q_started q1) in
+          match fire (env_cell (q_env q1) false) (cur_flags q1) (q_sys q1) with
           | inr su => bad su
           | inl s3 =>
               let s4 := drain s3 in
-              match start_all tbl m (conn_level (m_event m)) (m_after m) s4 fl1 with
+              let q2 := {| q_sys := s4; q_fl0 := q_fl0 q1; q_ok := q_ok q1; q_started := q_started q1;
+                           q_env := q_env q1 |} in
+              match q_fold (q_start tbl (conn_level (m_event m))) (m_after m) (Some q2) with
               | None => bad SError
-              | Some (s5, ts', ok3) =>
+              | Some q3 =>
                   {| mp_setup := SOk;
+                     mp_blocked := map (is_blocked_task (q_sys q1)) ts;
                      mp_during := map (task_outcome c0 s4) ts;
-                     mp_after := map (task_outcome c0 s5) ts';
-                     mp_inpaths := ok1 && ok2 && ok3 |}
+                     mp_after := map (task_outcome c0 (q_sys q3))
+                                     (skipn (length ts) (map fst (q_started q3)));
+                     mp_inpaths := q_ok q3 |}
               end
           end
       end
